@@ -3,6 +3,6 @@ CONSTANTS CodeSets <- Singletons
           AlphaLen = 5
           Aligns = {0, 1, 2, 3, 4, 5, 6, 7, 8}
           Pushes = {1, 2, 3, 4, 5, 6, 7, 8, 9, 10, 11, 12, 13, 14, 15, 16, 17, 18, 19, 20, 21, 22, 23, 24, 25, 26, 27, 28, 29, 30, 31, 32}
-INVARIANTS BitmapRight CacheSound FrameSound AnswerRight CachedEqualsFresh EmitCase
+INVARIANTS BitmapRight ValidSetRight CacheSound FrameSound AnswerRight CachedEqualsFresh EmitCase
 VIEW View
 CHECK_DEADLOCK FALSE
